@@ -178,7 +178,7 @@ def ekey(e):
 # ----------------------------------------------------------------------------- atoms
 
 class Atom:
-    __slots__ = ("id", "name", "kind", "positive", "unit", "idem", "defn", "cond", "args", "sign", "fp", "cval")
+    __slots__ = ("id", "name", "kind", "positive", "unit", "idem", "defn", "cond", "args", "sign", "fp", "cval", "fname")
 
     def __init__(self, id, name, kind, positive=False, unit=False, idem=False):
         self.id = id
@@ -193,6 +193,7 @@ class Atom:
         self.sign = None    # known sign of a defined atom: '+', '-', '>=0', '<=0'
         self.fp = None
         self.cval = None    # value of a positive-constant atom  #c
+        self.fname = None   # opaque: the function name
 
     def __repr__(self):
         return self.name
@@ -295,6 +296,8 @@ class Algebra:
         self.fold_enabled = True
         self.ranges = {}         # sym name -> (lo, hi) range for witness search
         self.opaque_rules = {}   # fname -> rule(args) -> RF or None (axioms of an uninterpreted function)
+        self.numeric_functions = {}     # fname -> fn(Decimal ...) -> Decimal: at witness points the atom takes the function's TRUE value
+                                        # (needed where magnitudes matter: error bounds; identity tests do not need it)
         self._radicands = []     # (RF, fingerprint) of forms raised to fractional powers
         self.deep_facts = False  # allow the remainder of a fact division to use one more fact
         self._memo = {}
@@ -373,6 +376,7 @@ class Algebra:
                 continue
         a = self._new_atom("%s(%s)" % (fname, ",".join(self.show(x, 40) if isinstance(x, RF) else repr(x) for x in args)), "opaque", positive=positive)
         a.args = args
+        a.fname = fname
         a.fp = 0.7 + (hash_str(repr(key)) % 7919) / 7919.0
         if not positive and hash_bit(repr(key) + "s"):
             a.fp = -a.fp
@@ -1549,11 +1553,20 @@ class Algebra:
         except (ZeroDivisionError, ValueError, OverflowError, TypeError, decimal.DecimalException):
             return None
 
+    def evalf_raise(self, rf, k, memo):
+        v = self._ev_poly(rf.num, k, memo)
+        for fid, mult in rf.den:
+            v = DCTX.divide(v, DCTX.power(self._ev_poly(self.factors[fid], k, memo), mult))
+        return v
+
     def _ev_atom(self, aid, k, memo):
         if aid in memo:
             return memo[aid]
         at = self.atoms[aid]
-        if at.kind in ("sym", "opaque"):
+        fnum = self.numeric_functions.get(getattr(at, "fname", None)) if (at.kind == "opaque" and self.numeric_functions) else None
+        if fnum is not None and all(isinstance(x, RF) for x in at.args):
+            v = fnum(*[self.evalf_raise(x, k, memo) for x in at.args])
+        elif at.kind in ("sym", "opaque"):
             if at.name.startswith("#"):
                 fr = Fraction(at.name[1:])
                 v = DCTX.divide(Decimal(fr.numerator), Decimal(fr.denominator))
